@@ -1,11 +1,22 @@
 import AtreeModel.Errors
 /-
   C18 — Rejected requests are categorised and leave no trace.
-  PROPERTY THEOREMS.  The model's operations return `Except`: an error carries no new state, so
-  "leaves the container, its ancestors and the pending write set exactly as they were" is stated
-  on the request-level step function `Arr.request` (maps: C02's `remove_refines`/`set_refines`
-  already state that a rejected request returns only an error).  Categories are read from the
-  table regenerated from errors.go on every run.
+  PROPERTY THEOREMS of this file: the error CATEGORIES (read from the table regenerated from errors.go
+  on every run) and two statements about the request-level wrapper `Arr.request`.
+
+  HONEST LABEL (audit a2/F1): `Arr.request` is DEFINED to return its input state when the operation
+  returns an error, so `reject_is_noop` and `history_with_rejections_same_state` below hold by
+  construction of that wrapper, for ANY array code; they say nothing about the order of checks and
+  mutations in the implementation.  They are kept because the correspondence check uses exactly
+  this wrapper semantics ("EFF -" after a refused request), i.e. they state what the replayer
+  assumes.  The statements that depend on the code order are
+    * `Props/C18Order.lean`  `arg_checks_precede_effects` – the regenerated statement order of the Go
+      request-level functions (a reordering such as seeded changes s06 / s23 breaks it);
+    * `Props/C18Reject.lean` `reject_leaves_no_trace`, `map_set_reject_leaves_no_trace`,
+      `map_remove_reject_leaves_no_trace` – in-place programs whose state survives an error, tied to
+      the functional model by `inplace_request_agrees` / `map_set_inplace_agrees` /
+      `map_remove_inplace_agrees`; `history_with_rejections_commits_same_registers` (+ maps) at the
+      level of the storage state machine.
 -/
 namespace Atree.C18
 open Atree
@@ -41,14 +52,19 @@ theorem callback_failure_is_external :
   · intro c hc; cases c <;> simp_all [wrapExternal]
   · intro c; cases c <;> rfl
 
-/-- A rejected array request leaves the array and the storage context (allocation counter, effect
-    log, created slabs) exactly as they were. -/
+/-- (BY CONSTRUCTION of `Arr.request`, see the file comment.)  A rejected array request leaves the
+    array and the storage context (allocation counter, effect log, created slabs) exactly as they
+    were – in the wrapper's semantics.  The statement about the in-place programs is
+    `C18.reject_leaves_no_trace` (Props/C18Reject.lean); `C18.reject_is_noop_inplace` links the two. -/
 theorem reject_is_noop (T : Nat) (s : Arr × Ctx) (r : AReq) (e : AErr)
     (h : (Arr.request T s r).2 = .err e) : (Arr.request T s r).1 = s := by
   cases r <;> simp only [Arr.request] at h ⊢ <;> split at h <;> simp_all
 
-/-- A history with rejected requests ends in the same state (same tree, same effect log, hence
-    the same registers at the next commit) as the history without them. -/
+/-- (BY CONSTRUCTION of `Arr.request`: induction over `reject_is_noop`.)  A history with rejected
+    requests ends in the same state (same tree, same effect log) as the history without them.  The
+    statement with in-place semantics and the storage state machine (same pending write set, same
+    ledger, hence the same registers at the next commit) is
+    `C18.history_with_rejections_commits_same_registers` (Props/C18Reject.lean). -/
 theorem history_with_rejections_same_state (T : Nat) (s : Arr × Ctx) (rs : List AReq) :
     (Arr.runRequests T s (Arr.served T s rs)).1 = (Arr.runRequests T s rs).1 := by
   induction rs generalizing s with
